@@ -153,7 +153,9 @@ def judge_e2e(o):
     fb = bytes.fromhex(o.get("frames") or "")
     got = collections.Counter(fb[i:i + 6] for i in range(0, len(fb), 6))
     want = collections.Counter(key(a, p) for a, p in o["want"])
-    if got == want and o["rc"] == 0:
+    # C01 is about the probes: the exit status of a scan is not judged here (a non-zero status with every due probe on
+    # the wire is no coverage violation)
+    if got == want:
         return None
 
     def show(c):
@@ -161,10 +163,11 @@ def judge_e2e(o):
     argv = " ".join(a if len(a) < 60 else a[:57] + "..." for a in o["argv"])
     if o.get("pin"):
         argv = "(pinned to one CPU: taskset -c N) " + argv
-    if got != want:
-        return "sx %s%s: %d probes on the wire where %d are due; missing %s, not due %s (exit status %d)" % (
-            argv, " < address list" if o.get("stdin") else "", sum(got.values()), sum(want.values()), show(want - got), show(got - want), o["rc"])
-    return "sx %s: exit status %d: %s" % (argv, o["rc"], (o.get("stderr") or "")[:200])
+    extra = ""
+    if o.get("inject"):
+        extra = ", while the far end answers the first probes with SYN+ACK segments whose TCP header is cut to 16 bytes,"
+    return "sx %s%s%s: %d probes on the wire where %d are due; missing %s, not due %s (exit status %d)" % (
+        argv, " < address list" if o.get("stdin") else "", extra, sum(got.values()), sum(want.values()), show(want - got), show(got - want), o["rc"])
 
 
 def run_e2e(ctx, n):
